@@ -467,7 +467,14 @@ fn rand_ops(rng: &mut Rng, nmembers: usize, big_ok: bool) -> Vec<String> {
     let mut ops = Vec::new();
     let mut used: Vec<ChitchatId> = Vec::new();
     for _ in 0..nmembers {
-        let id = rand_id(rng, 300);
+        let mut id = rand_id(rng, 300);
+        if !used.is_empty() && rng.chance(1, 4) {
+            // the same node id (and often the same generation) advertised at another address is
+            // another member
+            let prev = used[rng.below(used.len() as u64) as usize].clone();
+            let generation = if rng.chance(2, 3) { prev.generation_id } else { rand_u64(rng) };
+            id = ChitchatId::new(prev.node_id.clone(), generation, id.gossip_advertise_addr);
+        }
         if used.contains(&id) {
             continue;
         }
@@ -570,7 +577,12 @@ pub fn gen_wire(seed: u64, tier: &Tier, shard: usize, nshards: usize, emit: &mut
         } as usize;
         let mut entries: Vec<(ChitchatId, u64, u64, u64)> = Vec::new();
         for _ in 0..nmem {
-            let id = rand_id(&mut rng, if nmem <= 3 { 65535 } else { 300 });
+            let mut id = rand_id(&mut rng, if nmem <= 3 { 65535 } else { 300 });
+            if !entries.is_empty() && rng.chance(1, 6) {
+                let prev = entries[rng.below(entries.len() as u64) as usize].0.clone();
+                let generation = if rng.chance(2, 3) { prev.generation_id } else { rand_u64(&mut rng) };
+                id = ChitchatId::new(prev.node_id.clone(), generation, id.gossip_advertise_addr);
+            }
             if entries.iter().any(|e| e.0 == id) {
                 continue;
             }
@@ -694,7 +706,7 @@ pub fn gen_wire(seed: u64, tier: &Tier, shard: usize, nshards: usize, emit: &mut
             let tag = [1u8, 2u8][rng.below(2) as usize];
             let dg: Vec<(ChitchatId, u64, u64, u64)> = known.iter().skip(1).map(|id| (id.clone(), rng.range(1, 9), 0, 0)).collect();
             let m = stream_message(tag, if tag == 1 { Some(&dg) } else { None }, &bytes, 16384);
-            emit(plist("datagram", ["0".to_string(), hex(&m)]));
+            emit(plist("datagram", ["0".to_string(), hex(&m), plist("ops", pool.iter())]));
         }
     }
 }
@@ -882,6 +894,38 @@ pub fn gen_fd(seed: u64, tier: &Tier, shard: usize, nshards: usize, emit: &mut d
         emit(new_cmd(0, &node_id(1), "c", 100, &cfg, "(pred none)", &[]));
         let members = [node_id(2), node_id(3)];
         let mut hb = [rng.range(1, 5), rng.range(1, 5)];
+        if i % 6 == 5 {
+            // directed: the window fills (and wraps) at a slow pace, the member dies (window reset),
+            // revives with much faster heartbeats, then goes silent for good
+            let win: u64 = cfg.split(' ').nth(3).and_then(|w| w.parse().ok()).unwrap_or(5).min(12);
+            let slow = rng.range((max_iv / 2).max(1), max_iv);
+            let deadline = theta_milli * max_iv.max(init_iv) / 1000 + 1;
+            let mut beat = |emit: &mut dyn FnMut(String), hb: &mut [u64; 2]| {
+                hb[0] += 1;
+                emit(plist("hb", ["0".to_string(), p_id(&members[0]), hb[0].to_string()]));
+            };
+            for _ in 0..(win + rng.range(2, 5)) {
+                beat(emit, &mut hb);
+                emit(format!("(advance {slow})"));
+            }
+            emit("(live 0)".to_string());
+            emit(format!("(advance {})", deadline + rng.range(0, 3)));
+            emit("(live 0)".to_string());
+            let fast = rng.range(1, (slow / 20).max(2));
+            for _ in 0..rng.range(2, win + 3) {
+                beat(emit, &mut hb);
+                emit(format!("(advance {fast})"));
+                if rng.chance(1, 2) {
+                    emit("(live 0)".to_string());
+                }
+            }
+            emit("(live 0)".to_string());
+            for mult in [1u64, 3, 10] {
+                emit(format!("(advance {})", deadline * mult));
+                emit("(live 0)".to_string());
+            }
+            continue;
+        }
         let steps = if tier.thorough && rng.chance(1, 20) { rng.range(200, 2000) } else { rng.range(3, 60) };
         // a "regime" for the arrivals: steady, bursty, slow, dying
         let regime = rng.below(4);
@@ -1170,6 +1214,23 @@ pub fn gen_listener(seed: u64, tier: &Tier, shard: usize, nshards: usize, emit: 
                 0 => emit(format!("(unsub 0 {idx} {})", hex(p.as_bytes()))),
                 1 => emit(format!("(forever 0 {idx})")),
                 _ => {}
+            }
+        }
+        // late subscriptions after drops (mostly on a prefix that already has a subscription),
+        // interleaved with further drops of older handles
+        let nlate = rng.range(0, 4);
+        for j in 0..nlate {
+            let idx = nsubs + j;
+            let p = if !subs.is_empty() && rng.chance(2, 3) {
+                subs[rng.below(subs.len() as u64) as usize].1.clone()
+            } else {
+                strings[rng.below(21) as usize].clone()
+            };
+            emit(format!("(sub 0 {idx} {})", hex(p.as_bytes())));
+            subs.push((idx, p));
+            if rng.chance(1, 2) {
+                let (oidx, op) = subs[rng.below(subs.len() as u64) as usize].clone();
+                emit(format!("(unsub 0 {oidx} {})", hex(op.as_bytes())));
             }
         }
         // every key of the universe is written locally with a new value
